@@ -472,26 +472,6 @@ func TestCheck(t *testing.T) {
 	})
 
 	// Phase D: constraint helpers for derived types
-	r.Phase("D: constraint.Max/Min/SizeBits/SizeBytes/IsSigned/IsFloat for base and derived types", func() {
-		r.Serial(func(w *vkit.W) {
-			chk := func(name string, ok bool) {
-				w.Eval(true)
-				if !ok {
-					w.Fail(map[string]string{"constraint": name}, "constraint-helper", name+" is wrong")
-				}
-			}
-			chk("Max[MyI8]", constraint.Max[MyI8]() == 127 && constraint.Min[MyI8]() == -128 && constraint.SizeBits[MyI8]() == 8 && constraint.IsSigned[MyI8]() && !constraint.IsFloat[MyI8]())
-			chk("Max[MyU8]", constraint.Max[MyU8]() == 255 && constraint.Min[MyU8]() == 0 && constraint.SizeBytes[MyU8]() == 1 && !constraint.IsSigned[MyU8]())
-			chk("Max[MyU16]", constraint.Max[MyU16]() == 65535 && constraint.SizeBits[MyU16]() == 16)
-			chk("Max[MyU64]", constraint.Max[MyU64]() == math.MaxUint64 && constraint.SizeBytes[MyU64]() == 8 && !constraint.IsSigned[MyU64]() && !constraint.IsFloat[MyU64]())
-			chk("Max[MyI64]", constraint.Max[MyI64]() == math.MaxInt64 && constraint.Min[MyI64]() == math.MinInt64 && constraint.IsSigned[MyI64]())
-			chk("Max[MyInt]", constraint.Max[MyInt]() == math.MaxInt && constraint.Min[MyInt]() == math.MinInt && constraint.SizeBits[MyInt]() == strconv.IntSize)
-			chk("Max[MyF32]", constraint.Max[MyF32]() == math.MaxFloat32 && constraint.Min[MyF32]() == -math.MaxFloat32 && constraint.IsFloat[MyF32]() && constraint.IsSigned[MyF32]() && constraint.SizeBits[MyF32]() == 32 && constraint.SmallestNonzero[MyF32]() == math.SmallestNonzeroFloat32)
-			chk("Max[MyF64]", constraint.Max[MyF64]() == math.MaxFloat64 && constraint.Min[MyF64]() == -math.MaxFloat64 && constraint.IsFloat[MyF64]() && constraint.SizeBytes[MyF64]() == 8 && constraint.SmallestNonzero[MyF64]() == math.SmallestNonzeroFloat64)
-			chk("Max[uint32]", constraint.Max[uint32]() == math.MaxUint32 && constraint.Max[int16]() == math.MaxInt16 && constraint.Min[int32]() == math.MinInt32 && constraint.SmallestNonzero[MyU8]() == 1)
-		})
-	})
-
 	// Phase D2: Size.UnmarshalText honours RuleDisableUnit of DefaultRule (a package setting): boundary numbers without unit.
 	r.Phase("D2: UnmarshalText under DefaultRule with RuleDisableUnit: numbers around 2^64 and texts with units", func() {
 		old := size.DefaultRule
